@@ -830,6 +830,9 @@ pub fn lt_track(l: &Ledger) -> LtTrack {
                         Some(438) => {
                             if let Some(c) = ctx.as_mut() {
                                 c.nonce = p.string(wire::A_NONCE).unwrap_or_default();
+                                // "USERHASH when the nonce cookie asks for anonymity": the cookie of the nonce now in force
+                                let bits = wire::nonce_cookie_bits(&c.nonce).unwrap_or((false, false));
+                                c.anon = bits.1;
                             }
                             state = LtState::Retry438;
                         }
@@ -942,6 +945,15 @@ fn contains_sub(hay: &[u8], needle: &[u8]) -> bool {
     !needle.is_empty() && hay.windows(needle.len()).any(|w| w == needle)
 }
 
+/// Text every conforming decoder must take as the value of REALM / NONCE: 1-127 printable ASCII characters
+/// without the two that need quoting.
+fn plain_qtext(s: Option<&str>) -> bool {
+    match s {
+        Some(s) => !s.is_empty() && s.len() <= 127 && s.bytes().all(|b| (0x20..=0x7e).contains(&b) && b != b'"' && b != b'\\'),
+        None => false,
+    }
+}
+
 pub fn check_c08(l: &Ledger) -> Vec<Violation> {
     let mut out = vec![];
     if l.cfg.mech != Mech::LongTerm {
@@ -1038,7 +1050,11 @@ pub fn check_c08(l: &Ledger) -> Vec<Violation> {
                 // "must retry / must deliver" is only demanded of messages as the reference server built
                 // them; for messages damaged in flight only the safety rules apply (a damaged challenge may
                 // carry an empty realm, a nonce that is no longer a quoted-string, ...)
-                let corrupted = !fault.is_empty();
+                // the same holds for what a hostile server personality builds on purpose (over-long or non-UTF-8
+                // strings, reason phrases beyond the limit): a message the library's decoder refuses is rejected at
+                // decode, before any credential processing -- that is C03's subject; bounded liveness (fresh probe)
+                // guards against a decoder that refuses what it should take
+                let corrupted = !fault.is_empty() || !crate::libtap::decodes(bytes);
                 if ctx.map_or(false, |c| c.exotic_realm()) {
                     continue;
                 }
@@ -1086,7 +1102,9 @@ pub fn check_c08(l: &Ledger) -> Vec<Violation> {
                                 out.push(v("C08", format!("C08/retry-on-malformed-401({})", why), st.idx, format!("step {}: Retry although the challenge cannot be answered [{}]", st.idx, fault)));
                             }
                         } else if !s.has_mi && !s.has_sha {
-                            if !retried && !corrupted {
+                            // (a challenge whose REALM / NONCE is not plain quoted-string text of a legal length is the
+                            // hostile-server family: whether the library's grammar takes it is not a subject of C08)
+                            if !retried && !corrupted && plain_qtext(realm.as_deref()) && plain_qtext(nonce.as_deref()) {
                                 out.push(v(
                                     "C08",
                                     format!("C08/no-retry-on-wellformed-401(state={},{})", state_name(state), tname),
@@ -1129,11 +1147,11 @@ pub fn check_c08(l: &Ledger) -> Vec<Violation> {
                             }
                             continue;
                         }
-                        match (ctx, nonce) {
+                        match (ctx, nonce.clone()) {
                             (Some(c), Some(_)) => {
                                 let has_int = s.has_mi || s.has_sha;
                                 if !has_int {
-                                    if !retried && !corrupted {
+                                    if !retried && !corrupted && plain_qtext(nonce.as_deref()) && s.p.string(wire::A_REALM).map_or(true, |r| plain_qtext(Some(&r))) {
                                         out.push(v(
                                             "C08",
                                             format!("C08/no-retry-on-438(state={},{})", state_name(state), tname),
